@@ -210,7 +210,9 @@ def gen_plan(seed, index, tier):
         pu = rng.choice([None, None, 0.5, 10])
         ykind = rng.choice(["bin_int", "bin_str", "mc_int", "mc_str", "cont", "bin_neg"])
         akind = rng.choice(["bin_int", "bin_str", "mc_int", "cont"])
+        prior = 0 if index < N_STRAT else rng.choice([0, 0, 0, 1, 1, 2])
         plan.update(n=n, batch_size=bs, epochs=ep, max_iter=mi, cb_returns=cb_returns, progress_updates=pu,
+                    prior_fits=prior, warm_start=(rng.random() < 0.5),
                     ykind=ykind, akind=akind, cb_as_callable=(ncb == 1 and rng.random() < 0.5),
                     d=rng.randint(1, 3), constraints=rng.choice(["demographic_parity", "equalized_odds"]))
         plan["clock"] = _clock_decisions(rng, 2 + 2 * 130, pu is not None)
@@ -235,7 +237,7 @@ def gen_plan(seed, index, tier):
                 cb_returns[rng.randrange(ncb)][str(rng.randint(1, 8))] = True
             y, a = _layout(n, ykind, akind)
             slices, _, _ = ref_schedule(n, bs, ep, mi, cb_returns)
-            if len(slices) > 120:
+            if len(slices) > 60:
                 continue
             lo, hi = slices[0]
             if not (_first_complete(y[lo:hi], ykind) and _first_complete(a[lo:hi], akind)):
@@ -252,9 +254,10 @@ def gen_plan(seed, index, tier):
                           for x in (rng.randint(1, 6), rng.choice(["sigmoid", "leaky_relu"]))]
         plan.update(n=n, batch_size=bs, epochs=ep, max_iter=mi, cb_returns=cb_returns, ykind=ykind, akind=akind, d=d,
                     later_slice_incomplete=want_incomplete, pm=hidden(), am=hidden(),
-                    opt=rng.choice(["SGD", "Adam"]), lr=rng.choice([0.01, 0.1, 0.5]), alpha=rng.choice([0.0, 0.5, 1.0, 2.0]),
+                    opt=rng.choice(["SGD", "Adam"]), lr=rng.choice([0.01, 0.05, 0.1]), alpha=rng.choice([0.0, 0.5, 1.0, 2.0]),
                     constraints=rng.choice(["demographic_parity", "equalized_odds"]), rs=rng.randint(0, 10**6),
                     progress_updates=rng.choice([None, None, 0.5]),
+                    prior_fits=rng.choice([0, 0, 0, 1, 1, 2]), warm_start=(rng.random() < 0.5),
                     public=rng.random() < 0.35)
         plan["clock"] = _clock_decisions(rng, 2 + 2 * 125, plan["progress_updates"] is not None)
         plan["xs"] = [[round(rng.uniform(-1, 1), 3) for _ in range(d)] for _ in range(n)]
@@ -355,7 +358,17 @@ def _run_schedule_once(plan, ctx, stall):
         backend=seams.stub_engine_class(), epochs=plan["epochs"], batch_size=plan["batch_size"],
         max_iter=plan["max_iter"], shuffle=False, progress_updates=plan["progress_updates"],
         callbacks=_callbacks(plan), constraints=plan["constraints"], random_state=1,
+        warm_start=bool(plan.get("warm_start", False)),
     )
+    # history: earlier fit calls on the same estimator object; the observed fit must follow the same schedule
+    for _ in range(plan.get("prior_fits", 0)):
+        with ctx.clock_installed():
+            okp, retp, sitep = ctx.call(est.fit, X, y, sensitive_features=a)
+        if not okp:
+            return {"ok": False, "ret": retp, "site": sitep, "est": est, "steps": [], "cbs": [], "inits": 0}
+        ctx.train_steps = []
+        ctx.callback_log = []
+        ctx.losses.pos = 0
     inits0 = ctx.engine_inits
     with ctx.clock_installed():
         ok, ret, site = ctx.call(est.fit, X, y, sensitive_features=a)
@@ -395,7 +408,7 @@ def _exec_schedule(plan, ctx):
         return
     est = obs["est"]
     if obs["ret"] is not est:
-        ctx.fail("C17.schedule.fit_return", "fit did not return the estimator itself")
+        ctx.probe("fit_did_not_return_self")  # C19's subject, not gating here
     exp_rows = [list(range(lo, hi)) for lo, hi in slices]
     got_rows = [s["rows"] for s in obs["steps"]]
     if got_rows != exp_rows:
@@ -416,7 +429,7 @@ def _exec_schedule(plan, ctx):
     if getattr(est, "n_iter_", None) != len(slices):
         ctx.fail("C17.schedule.n_iter", f"n_iter_={getattr(est, 'n_iter_', None)} expected {len(slices)}")
     if obs["inits"] != 1:
-        ctx.fail("C17.schedule.engine_init", f"engine initialised {obs['inits']} times in one fit")
+        ctx.probe("engine_initialised_more_than_once")  # not part of the property, recorded only
     # clock indifference: identical history under an all-stall clock
     if obs_stall["ok"] != obs["ok"] or [s["rows"] for s in obs_stall["steps"]] != got_rows or obs_stall["cbs"] != obs["cbs"] \
             or getattr(obs_stall["est"], "n_iter_", None) != getattr(est, "n_iter_", None):
@@ -427,7 +440,9 @@ def _exec_schedule(plan, ctx):
     batches = ceil(n / bs)
     ctx.state({"mode": "schedule", "batches": min(batches, 6), "epochs": plan["epochs"], "reason": reason,
                "ncb": len(plan["cb_returns"]), "progress": bool(logged), "clock": _sig_clock(ctx.faults),
-               "y": plan["ykind"][:2]})
+               "y": plan["ykind"][:2], "prior": plan.get("prior_fits", 0), "warm": bool(plan.get("warm_start"))})
+    if plan.get("prior_fits"):
+        ctx.fault("refit_history", plan["prior_fits"])
     ctx.transition({"mode": "schedule", "reason": reason, "steps": min(len(slices), 12)})
 
 
@@ -439,12 +454,23 @@ def _make_torch_estimator(plan, callbacks, epochs, batch_size, max_iter):
                   predictor_optimizer=plan.get("opt", "SGD"), adversary_optimizer=plan.get("opt", "SGD"),
                   constraints=plan.get("constraints", "demographic_parity"), learning_rate=plan.get("lr", 0.1),
                   alpha=plan.get("alpha", 1.0), epochs=epochs, batch_size=batch_size, shuffle=False,
-                  progress_updates=plan.get("progress_updates"), callbacks=callbacks, random_state=plan["rs"])
+                  progress_updates=plan.get("progress_updates"), callbacks=callbacks, random_state=plan["rs"],
+                  warm_start=bool(plan.get("warm_start", False)))
     if plan.get("public") and max_iter == -1:
         if plan["ykind"] == "cont":
             return AdversarialFairnessRegressor(**common)
         return AdversarialFairnessClassifier(**common)
     return _AdversarialFairness(max_iter=max_iter, **common)
+
+
+def _nonfinite_model(est):
+    import torch
+
+    eng = getattr(est, "backendEngine_", None)
+    if eng is None or not hasattr(eng, "predictor_model"):
+        return False
+    ps = list(eng.predictor_model.parameters()) + list(eng.adversary_model.parameters())
+    return any(not bool(torch.isfinite(p).all()) for p in ps)
 
 
 def _params(est):
@@ -474,10 +500,29 @@ def _exec_equiv(plan, ctx):
     sigbase = {"later_slice_incomplete": bool(later_bad)}
     # estimator A: fit under the planned geometry / stop / clock
     A = _make_torch_estimator(plan, _callbacks(plan), plan["epochs"], plan["batch_size"], plan["max_iter"])
+    prior = plan.get("prior_fits", 0)
+    for _ in range(prior):
+        with ctx.clock_installed():
+            okp, retp, sitep = ctx.call(A.fit, X, y, sensitive_features=a)
+        ctx.ops += 1
+        if not okp and _nonfinite_model(A):
+            ctx.trivial("nan_model")
+            return
+        if not okp:
+            ctx.fail("C17.equiv.fit_raised", f"earlier fit raised {type(retp).__name__}: {retp} at {sitep}",
+                     dict(sigbase, exc=type(retp).__name__, site=sitep))
+            return
+        ctx.callback_log = []
+    if prior:
+        ctx.fault("refit_history", prior)
     with ctx.clock_installed():
         ok, ret, site = ctx.call(A.fit, X, y, sensitive_features=a)
     ctx.ops += 1
     if not ok:
+        if _nonfinite_model(A):
+            # numerical blow-up of the networks (C16 territory), not a schedule matter
+            ctx.trivial("nan_model")
+            return
         ctx.fail("C17.equiv.fit_raised", f"fit raised {type(ret).__name__}: {ret} at {site}",
                  dict(sigbase, exc=type(ret).__name__, site=site))
         return
@@ -486,19 +531,25 @@ def _exec_equiv(plan, ctx):
     if A.n_iter_ != len(slices):
         ctx.fail("C17.equiv.n_iter", f"n_iter_={A.n_iter_} expected {len(slices)}")
     pa = _params(A)
-    if any(bool(torch.isnan(p).any()) for p in pa):
+    if _nonfinite_model(A):
         ctx.trivial("nan_model")
         return
     # estimator B: identically configured, same slices through partial_fit
     B = _make_torch_estimator(plan, None, plan["epochs"], plan["batch_size"], plan["max_iter"])
     ycls = _classes(plan["ykind"], y)
-    for j, (lo, hi) in enumerate(slices):
+    # with warm_start=True every earlier fit trained the same networks on the same slices; with
+    # warm_start=False each fit starts again from the (seeded) initialisation
+    passes = (prior + 1) if plan.get("warm_start") else 1
+    for j, (lo, hi) in enumerate(slices * passes):
         kw = {"sensitive_features": a[lo:hi]}
         if j == 0 and ycls is not None:
             kw["classes"] = np.array(ycls)
         with ctx.clock_installed():
             ok, ret, site = ctx.call(B.partial_fit, X[lo:hi], y[lo:hi], **kw)
         ctx.ops += 1
+        if not ok and _nonfinite_model(B):
+            ctx.trivial("nan_model")
+            return
         if not ok:
             known = ctx.fail("C17.equiv.partial_fit_raised",
                              f"partial_fit of slice {lo}:{hi} (step {j + 1}) raised {type(ret).__name__}: {ret} at {site}; "
@@ -523,7 +574,8 @@ def _exec_equiv(plan, ctx):
             maxd = max(maxd, float((p - q).abs().max()))
     if not (maxd <= 1e-6):
         ctx.fail("C17.equiv.params", f"fit vs partial_fit parameters differ: max|d|={maxd:.3e} over {len(slices)} steps "
-                 f"(n={n}, batch_size={plan['batch_size']}, epochs={plan['epochs']}, max_iter={plan['max_iter']}, stop={reason})")
+                 f"(n={n}, batch_size={plan['batch_size']}, epochs={plan['epochs']}, max_iter={plan['max_iter']}, stop={reason}, "
+                 f"earlier fits={prior}, warm_start={bool(plan.get('warm_start'))})")
     if maxd > 0:
         ctx.probe("equiv_not_bit_exact")
     ra, rb = A._raw_predict(Xq), B._raw_predict(Xq)
@@ -534,7 +586,7 @@ def _exec_equiv(plan, ctx):
     bs = n if plan["batch_size"] == -1 else plan["batch_size"]
     ctx.state({"mode": "equiv", "batches": min(ceil(n / bs), 6), "epochs": plan["epochs"], "reason": reason,
                "ncb": len(plan["cb_returns"]), "clock": _sig_clock(ctx.faults), "y": plan["ykind"][:2],
-               "opt": plan["opt"], "eo": plan["constraints"][0]})
+               "opt": plan["opt"], "eo": plan["constraints"][0], "prior": prior, "warm": bool(plan.get("warm_start"))})
     ctx.transition({"mode": "equiv", "reason": reason, "steps": min(len(slices), 12)})
 
 
@@ -603,6 +655,9 @@ def _exec_labels(plan, ctx):
     with ctx.clock_installed():
         ok, ret, site = ctx.call(est.fit, X, y, sensitive_features=a)
     ctx.ops += 1
+    if not ok and not stub and _nonfinite_model(est):
+        ctx.trivial("nan_model")
+        return
     if not ok:
         ctx.fail("C17.labels.fit_raised", f"fit raised {type(ret).__name__}: {ret} at {site}",
                  {"exc": type(ret).__name__, "site": site})
@@ -642,6 +697,12 @@ def shrink_candidates(plan):
         return q
 
     if mode in ("schedule", "equiv"):
+        if p.get("prior_fits"):
+            yield mod(prior_fits=0)
+            if p["prior_fits"] > 1:
+                yield mod(prior_fits=1)
+        if p.get("warm_start"):
+            yield mod(warm_start=False)
         if p.get("clock"):
             yield mod(clock=[])
         if p.get("progress_updates") is not None:
